@@ -49,6 +49,11 @@ func UnmarshalPriShare(data []byte, suite Suite) (*share.PriShare, error) {
 	if err != nil {
 		return nil, err
 	}
+	// A message without the V field decodes to a nil scalar, on which every
+	// later operation would panic.
+	if compatiblePriShare.V == nil {
+		return nil, errors.New("missing share value V")
+	}
 	priShare := &share.PriShare{
 		I: uint32(compatiblePriShare.I),
 		V: compatiblePriShare.V,
